@@ -18,7 +18,7 @@ LEVEL = 'exploration'
 RULE = ('case = block of cells of the matrix (primary flags, subkey flags..., operation, enforcement, form); one evaluation per cell; non-trivial cell = at least '
         'two components or a refusal expected; distinct = distinct cell descriptors (digest)')
 ASSUMPTIONS = ['flag sets are read from the most recent self-signature of each component through public attributes', 'when several components qualify any of them may be used (the model only requires that the one used qualifies)']
-MIN_COUNTERS = {'quick': {'cells': 3000, 'refusals_expected_and_seen': 350, 'components_confirmed_cryptographically': 1200, 'form_cells': 120, 'forms_after_unlock_attempts': 12, 'aliased_set_cells': 6, 'subkey_object_cells': 60},
+MIN_COUNTERS = {'quick': {'cells': 3000, 'refusals_expected_and_seen': 350, 'components_confirmed_cryptographically': 1200, 'form_cells': 120, 'forms_after_unlock_attempts': 12, 'aliased_set_cells': 6, 'subkey_object_cells': 60, 'zero_id_component_cells': 6},
                 'thorough': {'cells': 12000}}
 BUDGET = {'quick': (600, 1500), 'thorough': (1800, 3600)}
 TECHNIQUE = 'runtime monitoring: exhaustive policy-matrix enumeration against a policy model; the component actually used is confirmed cryptographically by the reference'
@@ -68,6 +68,7 @@ def cases(tier, seed):
     cs.append({'t': 'reflag'})
     cs.append({'t': 'aliased'})
     cs.append({'t': 'onsubkey'})
+    cs.append({'t': 'zeroid'})
     cs.append({'t': 'unhashed'})
     return cs
 
@@ -648,6 +649,51 @@ def _onsubkey(ctx, d, pgpy):
                     continue
                 if not allowed:
                     ctx.fail('operation-carried-out-by-component-without-the-capability', dict(where, signer=getattr(r_, 'signer', None)))
+    ctx.nontrivial(d)
+
+
+def _zeroid(ctx, d, pgpy):
+    """components whose key id begins with a zero octet (one key in 256): the session-key packet names exactly the component used, decryption finds
+    it, signatures name it - live, through the public twin, and after export/import of message and key"""
+    from pgpy.constants import KeyFlags, CompressionAlgorithm
+    from ..ref import wire as W
+    msg = pgpy.PGPMessage.new('zero-leading key id', compression=CompressionAlgorithm.Uncompressed)
+    for enc_name, sig_name in (('cv25519_1', 'ed25519_1'), ('rsa1024_1', 'ecdsa_p256_1'), ('ecdh_p256_0', 'ed25519_2')):
+        te, ts = pool.created_with_zero(enc_name, 'keyid'), pool.created_with_zero(sig_name, 'keyid')
+        k = pool.pgpy_key('ed25519_0', uid='Zero Ids', usage={KeyFlags.Certify}, fresh=True)
+        k.add_subkey(pool.pgpy_bare(sig_name, created=ts), usage={KeyFlags.Sign})
+        k.add_subkey(pool.pgpy_bare(enc_name, created=te), usage={KeyFlags.EncryptCommunications, KeyFlags.EncryptStorage})
+        eid = RK.keyid_of(pool.mat(enc_name, te)).hex().upper()
+        sid = RK.keyid_of(pool.mat(sig_name, ts)).hex().upper()
+        if not (eid.startswith('00') and sid.startswith('00')):
+            ctx.fail('harness-zero-id-not-built', {'enc': eid, 'sig': sid})
+            continue
+        for form, kk in (('live', k), ('reimported', pgpy.PGPKey.from_blob(bytes(k))[0])):
+            ctx.count('cells')
+            ctx.count('zero_id_component_cells')
+            ctx.count('evaluations')
+            where = {'form': form, 'enc': enc_name, 'sig': sig_name}
+            enc = kk.pubkey.encrypt(msg)
+            wire_id = [p_ for p_ in W.split(bytes(enc)) if p_.tag == 1][0].body[1:9].hex().upper()
+            for mform, em in (('built', enc), ('reloaded', pgpy.PGPMessage.from_blob(bytes(enc))), ('reloaded-armor', pgpy.PGPMessage.from_blob(str(enc)))):
+                if wire_id != eid or set(em.encrypters) != {eid}:
+                    ctx.fail('session-key-packet-does-not-name-the-component-used', dict(where, message=mform, on_the_wire=wire_id, reported=sorted(em.encrypters), used=eid))
+                try:
+                    dec = kk.decrypt(em)
+                    if dec.message != 'zero-leading key id':
+                        ctx.fail('decrypts-to-different-plaintext', dict(where, message=mform))
+                    else:
+                        ctx.count('components_confirmed_cryptographically')
+                except Exception as e:
+                    ctx.fail('capable-component-refused', dict(where, message=mform, op='decrypt', err=repr(e)[:120]))
+            try:
+                s_ = kk.sign('zero-leading key id')
+                if s_.signer != sid:
+                    ctx.fail('operation-carried-out-by-component-without-the-capability', dict(where, signer=s_.signer, expected=sid))
+                elif not kk.pubkey.verify('zero-leading key id', pgpy.PGPSignature.from_blob(bytes(s_))):
+                    ctx.fail('signature-of-chosen-component-does-not-verify', where)
+            except pgpy.errors.PGPError as e:
+                ctx.fail('capable-component-refused', dict(where, op='sign', err=str(e)[:120]))
     ctx.nontrivial(d)
 
 
